@@ -1,4 +1,5 @@
 CONSTANTS
+  RecordPath = TRUE
   MaxSteps = 6
   MaxTrs = 3
   Kinds = {"audio", "video"}
@@ -6,5 +7,5 @@ CONSTANTS
   Ops = {"addTransceiver", "addTrack", "removeTrack", "stop", "createDC", "offerOnly", "negotiate"}
 INIT Init
 NEXT Next
-ACTION_CONSTRAINT EmitEdge
+INVARIANT EmitPath
 CHECK_DEADLOCK FALSE
